@@ -328,6 +328,12 @@ func (f *Frame) callStatic(fn *ssa.Function, args []Val, resT types.Type, st *St
 	if ct != nil && ct.Iterates {
 		return f.applyIterates(ct, fn, args, resT, st, reach, pos, rname)
 	}
+	if ct != nil && ct.Trusted && ct.View == "" && g.contract != nil && g.contract.View != "" && fn != g.top && len(fn.Blocks) > 0 && !hasLoops(fn) && fn.Pkg != nil && isRepoPkg(fn.Pkg.Pkg) {
+		// verifying at another level of abstraction (view): a trusted handler-level contract of a small repo function is
+		// not used; the body is
+		g.inlined[g.funcKey(fn)] = true
+		return f.inlineWith(fn, args, nil, st, reach, rname, nil)
+	}
 	if ct != nil && !ct.Inline && fn != g.top {
 		names := paramNames(fn)
 		return f.applyContract(ct, fn.String(), names, fn.Signature, args, st, reach, pos, rname)
